@@ -209,6 +209,36 @@ def mon_c12_forced(sc, obs):
     return None
 
 
+@monitor("c05_quant")
+def mon_c05_quant(sc, obs):
+    """every inference call (body upward/downward, quantifier upward/downward) only tightens: every row of every base table
+    and of every quantifier's table that existed before the call is at least as tight afterwards, and no row disappears"""
+    if whole_error(obs):
+        return None
+    for n, op, amt, before, after in walk(sc, obs):
+        if after is None:
+            return None
+        if op[0] not in (1, 2, 20, 21):
+            continue
+        for kind, bt, at in (("object", before[0], after[0]), ("quantifier", before[1], after[1])):
+            for i, (tb, ta) in enumerate(zip(bt, at)):
+                for g, (l, u) in tb.items():
+                    if g not in ta:
+                        return (f"op #{n} {op}: row {g} of {kind} {i} is still there", "missing", None)
+                    l2, u2 = ta[g]
+                    tol = F(0) if all(v.denominator <= 1024 for v in (l, u, l2, u2)) else F(1, 2 ** 18)
+                    if l2 < l - tol or u2 > u + tol:
+                        return (f"op #{n} {op}: {kind} {i} grounding {g} only tightens from ({l}, {u})", f"({l2}, {u2})", None)
+    return None
+
+
+def c05_quant_part(ctx):
+    scs, meta = gen_quant.gen_k50(ctx.rng("c05q"), 300 if ctx.quick else 4000, downward=True, nested=0.3)
+    run_q(ctx, "K7 quantifiers whose instance sets grow during inference (add_data between calls)", scs, ["c05_quant"], hashseeds=(0,))
+    ctx.cov["quantifier_distribution"] = qdist(meta)
+    ctx.corpus(["d14_resized_neuron.py"])
+
+
 def run_q(ctx, comp, scs, monitors, hashseeds=(0,)):
     m, impl, lines = ctx.correspond(comp, scs, hashseeds=hashseeds, per_proc=40, nontrivial=lambda s, mo: "-900" not in mo[:8])
     for hs in hashseeds:
@@ -286,6 +316,8 @@ def gen_c12(ctx, n):
                     val(i, g)
         for q in qobjs:
             q[4] = gen_fol.OPEN
+            if q[3] == 1 and not fulldom:
+                q[3] = 0     # fully_grounded declares the instance set complete: only kept where it IS complete from the start
         # quantifier data cannot be asserted (known finding); instead make some quantifiers axioms only when the hidden reading satisfies them
         nb = len(kb)
         for q in qobjs:
